@@ -813,6 +813,26 @@ func (g *gen) faults(h *Ans, nonce uint64, ti *treeInfo, nSibKinds int, pad240 b
 	add("state:geQ", true, false, func(a *Ans) { a.State = sp(hexOfBig(geQ(g.rng))) })
 	add("state:0x-prefix", false, true, func(a *Ans) { a.State = sp("0x" + *h.State) })
 	add("state:uppercase", false, true, func(a *Ans) { a.State = sp(strings.ToUpper(*h.State)) })
+	// --- near misses of the two compared hashes (deterministic): the hash is replaced by a
+	// value that agrees with it on most digits / bits, and the dependants are recomputed so
+	// that ONLY the targeted comparison can reject.
+	//   rtr:   revocationTreeRoot := f(r), state := Poseidon(ctr, f(r), ror)  -> the tree state is
+	//          consistent, only "root from proof = revocation root" can refuse
+	//   state: state := f(s), roots untouched -> only "state = Poseidon(roots)" can refuse
+	for _, nm := range nearMisses(val(h.Rtr)) {
+		nm := nm
+		add("nearmiss:rtr:"+nm.name, true, false, func(a *Ans) {
+			st, err := poseidon.Hash([]*big.Int{val(h.Ctr), nm.v, val(h.Ror)})
+			if err != nil {
+				return
+			}
+			a.Rtr, a.State = sp(hexOfBig(nm.v)), sp(hexOfBig(st))
+		})
+	}
+	for _, nm := range nearMisses(val(h.State)) {
+		nm := nm
+		add("nearmiss:state:"+nm.name, true, false, func(a *Ans) { a.State = sp(hexOfBig(nm.v)) })
+	}
 	// --- roots
 	type rootRef struct {
 		name string
@@ -962,6 +982,42 @@ func (g *gen) faults(h *Ans, nonce uint64, ti *treeInfo, nSibKinds int, pad240 b
 		other("nonce:aux-key", dec(*h.Aux.Key).Uint64(), true)
 	}
 	return fs
+}
+
+type nearMiss struct {
+	name string
+	v    *big.Int
+}
+
+// values close to the hash x (a field element), all different from x and inside the field
+func nearMisses(x *big.Int) []nearMiss {
+	Q := constants.Q
+	norm := func(z *big.Int) *big.Int { return z.Mod(z, Q) }
+	var out []nearMiss
+	push := func(name string, z *big.Int) {
+		if z.Sign() >= 0 && z.Cmp(Q) < 0 && z.Cmp(x) != 0 {
+			out = append(out, nearMiss{name, z})
+		}
+	}
+	push("+1", norm(new(big.Int).Add(x, big.NewInt(1))))
+	push("-1", norm(new(big.Int).Sub(x, big.NewInt(1))))
+	push("+2^64", norm(new(big.Int).Add(x, new(big.Int).Lsh(big.NewInt(1), 64))))
+	push("-10^40", norm(new(big.Int).Sub(x, new(big.Int).Exp(big.NewInt(10), big.NewInt(40), nil))))
+	// last decimal digit changed
+	d := new(big.Int).Mod(x, big.NewInt(10)).Int64()
+	ld := new(big.Int).Sub(x, big.NewInt(d))
+	push("last-decimal-digit", ld.Add(ld, big.NewInt((d+1)%10)))
+	// first byte of the hex form (the low byte) / last byte (the high byte, kept inside the field)
+	push("first-hex-byte", new(big.Int).Xor(x, big.NewInt(0x80)))
+	for b := 248; b <= 253; b++ {
+		z := new(big.Int).Set(x)
+		z.SetBit(z, b, z.Bit(b)^1)
+		if z.Cmp(Q) < 0 {
+			push("last-hex-byte", z)
+			break
+		}
+	}
+	return out
 }
 
 // ---------------------------------------------------------------------------
